@@ -246,6 +246,39 @@ def check_case(rec, senv, template, kind, h, w, th, tw, vals, form='op'):
         rec.fail(f'{tag}:fresh-thread', case,
                  f'{formula} over {target}: {got} on the main thread, '
                  f'{box["got"]} as first evaluation of a new thread')
+        return
+    # ... and follows its operands in an iterative model too (where nothing
+    # is reset by set_value and every evaluate recalculates)
+    if (len(formula) + h + w + th + tw) % 4 == 0:
+        coord = f'{COLS[0]}1'
+        newval = 77 if cells.get(coord) != 77 else 78
+        try:
+            cells2 = dict(cells)
+            cells2[coord] = newval
+            want2 = normalise(compile_spec(dict(spec, sheets={S: cells2}))
+                              .evaluate(f'{S}!{target}'), th, tw)
+            it = compile_spec(spec, cycles=True)
+            it.evaluate(f'{S}!{target}')
+            it.set_value(f'{S}!{coord}', newval)
+            got2 = normalise(it.evaluate(f'{S}!{target}'), th, tw)
+            members = [[it.evaluate(f'{S}!{TCOLS[j]}{i + 1}')
+                        for j in range(tw)] for i in range(th)] \
+                if (th, tw) != (1, 1) else got2
+        except Exception as exc:
+            rec.fail(f'{tag}:iterative:raises:{exc_key(exc)}', case,
+                     f'{formula} over {target} in an iterative model raised '
+                     f'{exc!r}'[:400])
+            return
+        rec.label('iterative-after-set_value')
+        for what, grid in (('range', got2), ('member', members)):
+            if not all(same(a, b) or (a in (None, '') and b in (None, 0, ''))
+                       for ra, rb in zip(want2, grid)
+                       for a, b in zip(ra, rb)):
+                rec.fail(f'{tag}:iterative:stale-{what}', case,
+                         f'{formula} over {target}, iterative model, after '
+                         f'set_value({coord}, {newval}): {what} {grid}, a '
+                         f'fresh model gives {want2}')
+                return
 
 
 SHAPES = [(h, w) for h in range(1, 5) for w in range(1, 5)]
